@@ -64,6 +64,9 @@ N == [
   t_abs      |-> <<47, 97, 98, 115, 47, 110, 111, 119, 104, 101, 114, 101>>,   \* "/abs/nowhere"
   t_dangling |-> <<110, 111, 47, 115, 117, 99, 104>>,   \* "no/such"
   t_up       |-> <<46, 46, 47, 107, 46, 100, 97, 116>>,   \* "../k.dat"
+  t_latin    |-> <<99, 97, 102, 233, 47, 109, 101, 110, 252, 46, 116, 120, 116>>,   \* "caf(E9)/men(FC).txt": 8-bit OSTA form in UDF
+  t_latin2   |-> <<195, 169>>,   \* U+00C3 U+00A9: Latin-1 bytes that also are valid UTF-8
+  t_cjk      |-> <<20013, 47, 25991>>,   \* U+4E2D "/" U+6587: 16-bit OSTA form
   bootcat    |-> <<98, 111, 111, 116, 46, 99, 97, 116>>,   \* "boot.cat"
   star_txt   |-> <<46, 116, 120, 116>> ]   \* ".txt" (pattern "*.txt")
 
@@ -101,7 +104,7 @@ Singles ==
        {{F(n, "A")} : n \in FileNames}
   \cup {{F(N.f1, "E")}}
   \cup {{D(n)} : n \in DirNames}
-  \cup {{L(N.f18, t)} : t \in {N.t_abs, N.t_dangling, N.t_up}}
+  \cup {{L(N.f18, t)} : t \in {N.t_abs, N.t_dangling, N.t_up, N.t_latin, N.t_latin2, N.t_cjk}}
   \cup {{L(N.f12, N.t_abs)}}
 PairsF ==
        {Distinctly(s) : s \in FilePairs}
